@@ -478,6 +478,47 @@ func init() {
 		// returns the struct tempError{error}; its interface conversion is temporary
 		return one(st, Val{K: VStruct, GoT: c.ResT.At(0).Type(), Parts: []Val{c.Args[0]}})
 	})
+	// ---- slices (generic): membership and first index over a slice of scalar elements
+	sliceFind := func(x *Exec, st *State, c *CallCtx) (Term, Term, bool) {
+		s, v := c.Args[0], c.Args[1]
+		if s.K != VSlice || v.K != VScalar {
+			return Term{}, Term{}, false
+		}
+		et := s.GoT.Underlying().(*types.Slice).Elem()
+		elem := func(i Term) (Term, bool) {
+			ix := x.idxTerm(s.Off, i)
+			e := x.loadAddrPure(st, &Addr{Prefix: elemPrefix(et), Ref: s.Ref, Idx: &ix, T: et})
+			return e.T, e.K == VScalar && e.T.Sort == v.T.Sort
+		}
+		w := x.fresh(st, "found", SInt)
+		ew, ok := elem(w)
+		if !ok {
+			return Term{}, Term{}, false
+		}
+		// w: -1, or the first position holding v
+		j := Term{"j!q" + strconv.Itoa(x.uniq()), SInt}
+		ej, _ := elem(j)
+		none := Term{"(forall ((" + j.S + " Int)) " + Implies(And(Ge(j, IntT(0)), Lt(j, s.Len)), Neq(ej, v.T)).S + ")", SBool}
+		before := Term{"(forall ((" + j.S + " Int)) " + Implies(And(Ge(j, IntT(0)), Lt(j, w)), Neq(ej, v.T)).S + ")", SBool}
+		st.assume(Or(And(Eq(w, IntT(-1)), none), And(Ge(w, IntT(0)), Lt(w, s.Len), Eq(ew, v.T), before)))
+		return w, s.Len, true
+	}
+	reg("slices.Index", func(x *Exec, st *State, c *CallCtx) []Outcome {
+		w, _, ok := sliceFind(x, st, c)
+		if !ok {
+			x.note(x.Outside, "slices.Index over non-scalar elements: result arbitrary")
+			return one(st, intV(x.fresh(st, "idx", SInt)))
+		}
+		return one(st, intV(w))
+	})
+	reg("slices.Contains", func(x *Exec, st *State, c *CallCtx) []Outcome {
+		w, _, ok := sliceFind(x, st, c)
+		if !ok {
+			x.note(x.Outside, "slices.Contains over non-scalar elements: result arbitrary")
+			return one(st, bval(x.fresh(st, "has", SBool)))
+		}
+		return one(st, bval(Ge(w, IntT(0))))
+	})
 	// ---- crypto/subtle, bytes
 	reg("crypto/subtle.ConstantTimeCompare", func(x *Exec, st *State, c *CallCtx) []Outcome {
 		eq := Eq(x.bc(st, c.Args[0]), x.bc(st, c.Args[1]))
